@@ -1,17 +1,19 @@
 #!/bin/bash
-# usage: ./mkmut.sh <PROP>-<name> <file-relative-to-/repo> <python-expression: s -> s>   (writes mutants/<name>.patch, restores /repo)
+# usage: ./mkmut.sh <PROP>-<name> <file-relative-to-repo> <python-expression: s -> s>
+# Writes mutants/<name>.patch. Works in a scratch worktree under /tmp (never touches /repo's working tree).
 set -e
 name=$1; file=$2; expr=$3
-[ -z "$(git -C /repo status --porcelain)" ] || { echo "/repo not clean"; exit 1; }
-python3 - "$file" "$expr" <<'PY'
+wt=$(mktemp -d /tmp/mkmut-XXXX)/r
+git -C /repo worktree add --detach "$wt" HEAD >/dev/null 2>&1
+trap 'git -C /repo worktree remove --force "$wt" >/dev/null 2>&1; rm -rf "$(dirname "$wt")"; git -C /repo worktree prune' EXIT
+python3 - "$wt/$file" "$expr" <<'PY'
 import sys
-p='/repo/'+sys.argv[1]
+p=sys.argv[1]
 s=open(p,newline='').read()
 f=eval("lambda s: "+sys.argv[2])
 t=f(s)
 assert t!=s, "mutation did not change the file"
 open(p,'w',newline='').write(t)
 PY
-git -C /repo diff > /verif/mutants/$name.patch
-git -C /repo checkout -- .
+git -C "$wt" diff > /verif/mutants/$name.patch
 echo "wrote mutants/$name.patch ($(wc -l < /verif/mutants/$name.patch) lines)"
